@@ -98,7 +98,12 @@ reg = {
         "h_complex_types.rs": "src/complex_types.rs",
         "h_btree_base.rs": "src/tree_store/btree_base.rs",
     },
-    "twins": {},
+    # bounded Kani twins of Verus obligations: run only after a Verus refutation, to look for a concrete failing input
+    "twins": {
+        "types_sep/str_separator": {"harness": "c15_b_str_separator_l3", "bound": "&str keys of <= 3 bytes", "timeout": 2400},
+        "types_sep/bytes_separator": {"harness": "c15_b_bytes_separator_l3", "bound": "&[u8] keys of <= 3 bytes", "timeout": 900},
+        "types_sep/round_up_to_char_boundary": {"harness": "c15_b_str_separator_l3", "bound": "&str keys of <= 3 bytes", "timeout": 2400},
+    },
     "trusted_base": [
         "T1 rustc, Kani 0.68 / CBMC 6.11 / CaDiCaL, Verus 0.2026.09.13 / Z3 are sound",
         "T2 Kani's models of std (allocation, Arc, Mutex on one thread, atomics as plain cells) match the real ones on one thread",
